@@ -125,6 +125,56 @@ def corridor_cases(tier, rng, kind):
         if not (rs[-1][0] * den <= ex <= rs[-1][2] * den):
             continue
         yield {"kind": kind, "rects": [[v * den for v in r] for r in rs], "s": [sx, sy], "e": [ex, ey], "den": den}
+    # bulges: the corridor's left (or right) side swells over many rectangles in a strictly convex arc, so that the shortest
+    # path from a point beside the first rectangle's far end to one beside the last winds around EVERY reflex corner of that
+    # side: the funnel's chain on that side holds as many vertices as there are doors (long edges through many layers whose
+    # helper nodes lie on an arc); also S-shapes (a left bulge followed by a right one)
+    def profile(k):
+        half = (k + 1) // 2
+        up = sorted(rng.sample(range(3, 90), half - 1), reverse=True)
+        down = sorted(rng.sample(range(3, 90), k - half), reverse=False)
+        prof, v = [0], 0
+        for d in up:
+            v += d
+            prof.append(v)
+        for d in down:
+            v -= d
+            prof.append(v)
+        lo = min(prof)
+        return [x - lo for x in prof]
+    for _ in range(600 if tier == "quick" else 8000):
+        shape = rng.choice(["left", "right", "s"])
+        k = rng.randint(5, 18)
+        h = rng.choice([10, 20, 40])
+        if shape == "s":
+            k1 = rng.randint(4, 9)
+            k2 = rng.randint(4, 9)
+            p1, p2 = profile(k1), profile(k2)
+            width = max(p1) + max(p2) + rng.randint(20, 80)
+            rs = [[p1[i], i * h, max(p1) + width, (i + 1) * h] for i in range(k1)]
+            rs += [[0, (k1 + i) * h, max(p1) + width - p2[i], (k1 + i + 1) * h] for i in range(k2)]
+        else:
+            pr = profile(k)
+            width = max(pr) + rng.randint(10, 120)
+            if shape == "left":
+                rs = [[pr[i], i * h, width, (i + 1) * h] for i in range(k)]
+            else:
+                rs = [[0, i * h, width - pr[i], (i + 1) * h] for i in range(k)]
+        # end points hugging the bulging side of the first / last rectangle, or anywhere
+        def pick(r, near):
+            if near == "left":
+                x = rng.randint(r[0], min(r[2], r[0] + 10))
+            elif near == "right":
+                x = rng.randint(max(r[0], r[2] - 10), r[2])
+            else:
+                x = rng.randint(r[0], r[2])
+            return x
+        near = shape if shape != "s" else rng.choice(["left", "right", "any"])
+        if rng.random() < 0.25:
+            near = "any"
+        s_ = (pick(rs[0], near), rng.choice([rs[0][1], rng.randint(rs[0][1], rs[0][3])]))
+        e_ = (pick(rs[-1], near if shape != "s" else rng.choice(["left", "right", "any"])), rng.choice([rs[-1][3], rng.randint(rs[-1][1], rs[-1][3])]))
+        yield {"kind": kind, "rects": rs, "s": list(s_), "e": list(e_), "den": 1}
     # random larger corridors (k up to 12), integer corners up to 40
     for _ in range(1500 if tier == "quick" else 25000):
         k = rng.randint(2, 12)
